@@ -23,6 +23,32 @@ claim("C13", "exploration", "balance",
       "Held on the inputs of the run only; stickiness clauses are only judged where the statement applies (identical subscriptions, unchanged partitions).",
       "DESIGN.md §7 C13")
 
+claim("C01", "fault_enumeration", "prod",
+      "runtime monitor of the real AsyncProducer/SyncProducer against a simulated cluster: enumerated fault words x retry budget x idempotence plus seeded random scenarios with hook-based schedule steering; conservation oracle over submit/outcome events at the API boundary, quiescence-based completion verdict, race detector",
+      "Every fault word of length <= 2 (quick) / <= 3 (thorough) over the 9-letter produce-fault alphabet is run for Retry.Max 0-2 and idempotent on/off on a small scenario; seeded random scenarios add brokers, partitions, flush settings, versions, acks, leader moves, metadata failures, SyncProducer callers and steering plans. For each run: every submitted message has exactly one terminal event, no event for anything else, Close/AsyncClose completes (stuck only when nothing moves any more), SyncProducer returns equal the producer's outcome for that pointer.",
+      "Held on the executions of the run. Successes pending when Close() is called are drained by Close itself (documented) and are then checked through the ap.outcome hook instead of the channel.",
+      "DESIGN.md §7 C01")
+claim("C02", "fault_enumeration", "prod",
+      "runtime monitor: per-partition order oracle over the simulated partition logs and success offsets, under enumerated fault words and steered interleavings of fresh input with retries (hooks pp.newhwm, pp.flush, bp.response, bp.bridge)",
+      "Same engine as C01 weighted to several partitions per broker, leader moves, Retry.Max including 0; first copies in each log and success offsets must follow submission order.",
+      "Held on the executions of the run; one submitting goroutine per partition.",
+      "DESIGN.md §7 C02")
+claim("C04", "exploration", "prod",
+      "runtime monitor: every produce request is parsed by an independent reference reader (message v0/v1, record batch v2, all codecs, CRCs, varints, relative offsets); success events are checked against the simulated log content and a reference partitioner",
+      "Payload x version x codec x batching x acks x light fault scripts; each success must name the partition the partitioner chose and an offset holding exactly that message; nothing else may be in the log; wire format rules checked per request.",
+      "Held on the executions of the run. Offset under RequiredAcks=NoResponse is not judged (documented as undefined).",
+      "DESIGN.md §7 C04")
+claim("C05", "fault_enumeration", "prod",
+      "runtime monitor: simulated brokers enforce Kafka's producer id/epoch/sequence rules; oracles over the partition logs (no duplicate, success implies present) and over the sequence of batches received per (partition, producer id, epoch); hook facts attribute violations to mechanisms",
+      "Enumerated fault words x retry budget with idempotence on, plus random scenarios (half of them submitting sequentially so that no fresh input arrives inside a retry window). In the clean context (retriable error codes only, no failed message) any deviation is reported with its kind; after a connection fault or a failed message the pinned tree has three known mechanisms (KNOWN_FINDINGS.txt).",
+      "Held on the executions of the run, in the clean context; after connection faults / failed messages the known findings apply.",
+      "DESIGN.md §7 C05, §8")
+claim("C16", "exploration", "prod",
+      "runtime monitor: sizes and counts of every produce request measured at the simulated cluster (wire size, per-partition key+value bytes, records per request), rejection outcomes, and a quiescence-judged flush clause after the input stops",
+      "Message sizes straddling each limit x Flush.{Messages,Bytes,Frequency,MaxMessages} x MaxMessageBytes x lowered MaxRequestSize x version x partitions per broker, answers delayed by steering so batches accumulate.",
+      "Held on the executions of the run. MaxMessageBytes is kept below MaxRequestSize (the other order is a misconfiguration outside the statement).",
+      "DESIGN.md §7 C16")
+
 def main():
     props = [json.loads(l) for l in open(os.path.join(HERE, "properties.jsonl"))]
     ids = [p["id"] for p in props]
